@@ -282,6 +282,40 @@ func (c *ctx) walkStmt(s ast.Stmt, prev, next ast.Stmt, chanKey *string, inList 
 		if s.Post != nil {
 			c.walkStmt(s.Post, nil, nil, chanKey, false)
 		}
+		// R1b: `for { select { case v := <-ch: ... } }` is a channel-range loop
+		// written with a select (e.g. to leave on a stop signal): yield at the
+		// top of every receive case that takes a value
+		if s.Cond == nil && len(s.Body.List) == 1 {
+			if sel, ok := s.Body.List[0].(*ast.SelectStmt); ok {
+				for _, cl := range sel.Body.List {
+					cc := cl.(*ast.CommClause)
+					var val ast.Expr
+					recv := false
+					switch cm := cc.Comm.(type) {
+					case *ast.AssignStmt:
+						if len(cm.Rhs) == 1 {
+							if u, ok := cm.Rhs[0].(*ast.UnaryExpr); ok && u.Op == token.ARROW && isChan(c.p.TypesInfo.TypeOf(u.X)) {
+								recv = true
+								val = cm.Lhs[0]
+							}
+						}
+					}
+					if recv && len(cc.Body) > 0 {
+						key := c.keyExpr(val)
+						if !c.hasLocalFuncCallList(cc.Body) {
+							c.fe.needHook = true
+							at := c.off(cc.Colon) + 1
+							c.fe.add(at, at, fmt.Sprintf(" verifhook.Point(%q, %s); ", c.site("loop"), key))
+							stats["R1.chan_range_yield"]++
+						}
+						c.walkStmts(cc.Body, &key)
+					} else {
+						c.walkStmts(cc.Body, chanKey)
+					}
+				}
+				return
+			}
+		}
 		c.walkStmts(s.Body.List, chanKey)
 	case *ast.RangeStmt:
 		c.rangeStmt(s, prev, next, chanKey, inList)
@@ -452,6 +486,10 @@ func (c *ctx) fanoutKey() string {
 		}
 	}
 	return c.keyExpr(nil)
+}
+
+func (c *ctx) hasLocalFuncCallList(list []ast.Stmt) bool {
+	return c.hasLocalFuncCall(&ast.BlockStmt{List: list})
 }
 
 func (c *ctx) hasLocalFuncCall(b *ast.BlockStmt) bool {
